@@ -14,7 +14,12 @@
 // encryption response: EncryptionRequest / LoginSuccess / Disconnect+EOF / EOF); at the end it closes,
 // waits for HandleConn to return and drains what is buffered.  No timing-dependent observation.
 //
-// case line:  login <proto> online=<0|1> pre=<a|d|n|f> sess=<code> <input> <input> …\t<observation>
+// case line:  login <proto> online=<0|1> pre=<a|d|n|f> sess=<code> msgs=<k> <input> <input> …\t<observation>
+//   msgs  the PreLogin subscriber sends k login plugin messages (ids 1..k) during every PreLogin event: the completion of
+//         the login start (encryption request / offline hand-over) is deferred until the client has answered them all.
+//         Independently of `pre`, the subscriber FORCES OFFLINE MODE for usernames starting with "svc".
+//   also: `shape state-before-prelogin` — read from the source: handleServerLogin assigns loginPacketReceived after
+//         assertState and before the PreLogin event is fired (1/0)
 //   pre   PreLogin handler: a allow, d deny, n force online, f force offline
 //   sess  session server: j the client joined (name of its first login start, its secret) → 200+profile for exactly
 //         that (username, serverId), 204 otherwise; o the client joined under ANOTHER account name; n always 204;
@@ -36,10 +41,14 @@ import (
 	"encoding/hex"
 	"errors"
 	"fmt"
+	"go/ast"
+	"go/parser"
+	"go/token"
 	"io"
 	"math/big"
 	"net"
 	"net/http"
+	"os"
 	"strconv"
 	"strings"
 	"sync"
@@ -55,6 +64,7 @@ import (
 	"go.minekube.com/gate/pkg/edition/java/proto/state"
 	"go.minekube.com/gate/pkg/edition/java/proto/version"
 	"go.minekube.com/gate/pkg/edition/java/proxy"
+	"go.minekube.com/gate/pkg/edition/java/proxy/message"
 	"go.minekube.com/gate/pkg/gate/proto"
 	"go.minekube.com/gate/pkg/util/uuid"
 
@@ -156,6 +166,7 @@ type scenario struct {
 	acctName string // the account name the client joined under (sess j/o)
 	acctSID  string // server id the client joined with
 	pre      byte
+	msgs     int
 	events   []string
 	joins    []string
 	sidWant  string
@@ -248,8 +259,18 @@ func newRig(online bool, key *rsa.PrivateKey) *rig {
 	if err != nil {
 		panic(err)
 	}
+	chanID, _ := message.ChannelIdentifierFrom("verif:c08")
 	event.Subscribe(mgr, 0, func(e *proxy.PreLoginEvent) {
 		record("pre")
+		if lp, ok := e.Conn().(proxy.LoginPhaseConnection); ok {
+			for i := 0; i < cur.msgs; i++ {
+				_ = lp.SendLoginPluginMessage(chanID, []byte{byte(i + 1)}, consumerFunc(func([]byte) error { record("cons"); return nil }))
+			}
+		}
+		if strings.HasPrefix(e.Username(), "svc") {
+			e.ForceOfflineMode() // a service account admitted without Mojang auth — for THIS name only
+			return
+		}
 		switch cur.pre {
 		case 'd':
 			e.Deny(&component.Text{Content: "verif-denied"})
@@ -280,6 +301,10 @@ func newRig(online bool, key *rsa.PrivateKey) *rig {
 	return &rig{p: p, pub: pub, key: key}
 }
 
+type consumerFunc func([]byte) error
+
+func (f consumerFunc) OnMessageResponse(b []byte) error { return f(b) }
+
 // ---------- one case ----------
 
 type caseSpec struct {
@@ -287,6 +312,7 @@ type caseSpec struct {
 	online   bool
 	pre      byte
 	sess     byte
+	msgs     int
 	inputs   []string
 }
 
@@ -320,7 +346,7 @@ func discClass(d *packet.Disconnect) string {
 const profileUUID = "11111111222233334444555555555555"
 
 func runCase(r *rig, cs caseSpec) (sent []string, obs string) {
-	sc := &scenario{sess: cs.sess, pre: cs.pre, profile: profileUUID}
+	sc := &scenario{sess: cs.sess, pre: cs.pre, msgs: cs.msgs, profile: profileUUID}
 	cur = sc
 	cEnd, sEnd := e2e.Pipe(&net.TCPAddr{IP: net.IPv4(10, 1, 2, 3), Port: 50000}, &net.TCPAddr{IP: net.IPv4(10, 0, 0, 2), Port: 25565})
 	srv := &srvConn{PipeConn: sEnd}
@@ -392,12 +418,15 @@ func runCase(r *rig, cs caseSpec) (sent []string, obs string) {
 		case *packet.Disconnect:
 			return "Disc:" + discClass(p)
 		case *packet.LoginPluginMessage:
-			return "PluginMsg"
+			return "PluginMsg:" + strconv.Itoa(p.ID)
 		}
 		return fmt.Sprintf("Other:%T", ctx.Packet)
 	}
-	// wait reads until a terminal reaction
-	wait := func() {
+	// wait reads until a terminal reaction (EncryptionRequest / LoginSuccess / EOF), or — after a login start —
+	// until the kStop plugin messages of its PreLogin event have arrived (then the proxy waits for the answers)
+	unanswered := map[int]bool{}
+	wait := func(kStop int) {
+		got := 0
 		for n := 0; n < 16; n++ {
 			s := next()
 			if s == "" {
@@ -416,6 +445,14 @@ func runCase(r *rig, cs caseSpec) (sent []string, obs string) {
 			}
 			if strings.HasPrefix(s, "EncReq") {
 				return
+			}
+			if strings.HasPrefix(s, "PluginMsg:") {
+				id, _ := strconv.Atoi(s[len("PluginMsg:"):])
+				unanswered[id] = true
+				got++
+				if kStop > 0 && got == kStop {
+					return
+				}
 			}
 		}
 	}
@@ -442,7 +479,7 @@ func runCase(r *rig, cs caseSpec) (sent []string, obs string) {
 			} else {
 				send(&packet.ServerLogin{Username: name, HolderID: uuid.OfflinePlayerUUID(name)})
 			}
-			wait()
+			wait(cs.msgs)
 		case 'E':
 			f := strings.Split(in, ":")
 			var tokCT, secCT []byte
@@ -487,10 +524,16 @@ func runCase(r *rig, cs caseSpec) (sent []string, obs string) {
 			if e, d := newCFB8(sec, false), newCFB8(sec, true); e != nil {
 				cc.enc, cc.dec = e, d
 			}
-			wait()
+			wait(0)
 		case 'P':
 			id, _ := strconv.Atoi(in[2:])
 			send(&packet.LoginPluginResponse{ID: id, Success: true, Data: []byte{1}})
+			if unanswered[id] {
+				delete(unanswered, id)
+				if len(unanswered) == 0 {
+					wait(0) // every message the client received is answered: the deferred completion must react
+				}
+			}
 		case 'U':
 			_, _ = enc.Write([]byte{0x7e, 1, 2, 3})
 			_ = bw.Flush()
@@ -534,6 +577,66 @@ func runCase(r *rig, cs caseSpec) (sent []string, obs string) {
 	return sent, fmt.Sprintf("%s end=%s ev=%s join=%s", strings.Join(tr, " "), end, lst(sc.events), lst(sc.joins))
 }
 
+// shapeStateBeforePreLogin reads handleServerLogin from the source under test: "1" iff the function body, at top
+// level, asserts the state, then assigns l.currentState = loginPacketReceivedLoginState, and only later fires the
+// PreLogin event (so that no second login start can be accepted while the completion is deferred).
+func shapeStateBeforePreLogin() string {
+	repo := os.Getenv("VERIF_REPO")
+	if repo == "" {
+		repo = "/repo"
+	}
+	f, err := parser.ParseFile(token.NewFileSet(), repo+"/pkg/edition/java/proxy/session_client_initial_login.go", nil, 0)
+	if err != nil {
+		return "parse-error"
+	}
+	has := func(n ast.Node, sel string) bool {
+		found := false
+		ast.Inspect(n, func(x ast.Node) bool {
+			if c, ok := x.(*ast.CallExpr); ok {
+				if types := exprString(c.Fun); types == sel {
+					found = true
+				}
+			}
+			return !found
+		})
+		return found
+	}
+	for _, d := range f.Decls {
+		fd, ok := d.(*ast.FuncDecl)
+		if !ok || fd.Name.Name != "handleServerLogin" || fd.Body == nil {
+			continue
+		}
+		assertAt, assignAt, fireAt := -1, -1, -1
+		for i, st := range fd.Body.List {
+			if ifs, ok := st.(*ast.IfStmt); ok && assertAt < 0 && has(ifs.Cond, "l.assertState") {
+				assertAt = i
+			}
+			if as, ok := st.(*ast.AssignStmt); ok && assignAt < 0 && len(as.Lhs) == 1 && len(as.Rhs) == 1 &&
+				exprString(as.Lhs[0]) == "l.currentState" && exprString(as.Rhs[0]) == "loginPacketReceivedLoginState" {
+				assignAt = i
+			}
+			if fireAt < 0 && has(st, "l.eventMgr.Fire") {
+				fireAt = i
+			}
+		}
+		if assertAt >= 0 && assignAt > assertAt && fireAt > assignAt {
+			return "1"
+		}
+		return "0"
+	}
+	return "missing"
+}
+
+func exprString(e ast.Expr) string {
+	switch x := e.(type) {
+	case *ast.Ident:
+		return x.Name
+	case *ast.SelectorExpr:
+		return exprString(x.X) + "." + x.Sel.Name
+	}
+	return "?"
+}
+
 // ---------- generation ----------
 
 var protocols = []proto.Protocol{version.Minecraft_1_20_2.Protocol, version.Minecraft_1_20_3.Protocol, version.Minecraft_1_20_5.Protocol,
@@ -568,6 +671,9 @@ func (g *gen) name() string {
 		return "ab" // shortest valid
 	case 6:
 		return "sixteen_chars_ok"[:16]
+	case 7, 8, 9:
+		g.n++
+		return "svc_" + strconv.FormatInt(int64(g.n), 36) // the subscriber forces offline mode for these
 	}
 	return g.validName()
 }
@@ -586,7 +692,7 @@ func (g *gen) input() string {
 		}
 		return "E:" + tok + ":" + sec
 	case x < 16:
-		return fmt.Sprintf("P:%d", hx.Pick(g.r, []int{0, 1, 2, -1, 77}))
+		return fmt.Sprintf("P:%d", hx.Pick(g.r, []int{0, 1, 1, 2, 2, 3, -1, 77}))
 	case x < 18:
 		return "U"
 	default:
@@ -601,8 +707,15 @@ func (g *gen) sequence() []string {
 		if g.r.Chance(1, 3) {
 			seq = append([]string{g.input()}, seq...)
 		}
-		if g.r.Chance(1, 3) {
-			seq = append(seq, fmt.Sprintf("P:%d", g.r.Intn(3)))
+		// answers to the PreLogin plugin messages (ids 1..2), in any order, sometimes missing, sometimes
+		// interleaved with a duplicate login start / an early encryption response / garbage
+		for _, id := range []int{1 + g.r.Intn(2), 1 + g.r.Intn(2), g.r.Intn(4)} {
+			if g.r.Chance(1, 6) {
+				seq = append(seq, g.input())
+			}
+			if g.r.Chance(3, 4) {
+				seq = append(seq, fmt.Sprintf("P:%d", id))
+			}
 		}
 		tok, sec := "v", "k"
 		if g.r.Chance(1, 4) {
@@ -647,7 +760,7 @@ func main() {
 		if cs.online {
 			on = "1"
 		}
-		op := fmt.Sprintf("login %d online=%s pre=%c sess=%c", cs.protocol, on, cs.pre, cs.sess)
+		op := fmt.Sprintf("login %d online=%s pre=%c sess=%c msgs=%d", cs.protocol, on, cs.pre, cs.sess, cs.msgs)
 		if len(sent) > 0 {
 			op += " " + strings.Join(sent, " ")
 		}
@@ -685,17 +798,38 @@ func main() {
 	fx("fixed-name", true, 'a', 'j', nm(strings.Repeat("a", 65)), "E:v:k")
 	fx("fixed-name", true, 'a', 'j', nm(strings.Repeat("a", 64)), "E:v:k")
 
+	fm := func(class string, online bool, pre, sess byte, msgs int, in ...string) {
+		emit(class, caseSpec{protocol: p0, online: online, pre: pre, sess: sess, msgs: msgs, inputs: in})
+	}
+	// ---- deferred completion: PreLogin subscribers sent login plugin messages ----
+	run.Case("shape", "shape state-before-prelogin", shapeStateBeforePreLogin())
+	fm("fixed-deferred", true, 'a', 'j', 1, nm("Bob_01"), "P:1", "E:v:k")
+	fm("fixed-deferred", true, 'a', 'j', 2, nm("Bob_02"), "P:2", "P:1", "E:v:k")
+	fm("fixed-deferred", true, 'a', 'j', 2, nm("Bob_03"), "P:1", "P:1", "P:7", "P:2", "E:v:k")
+	fm("fixed-deferred", false, 'a', 'j', 1, nm("Bob_04"), "P:1")
+	fm("fixed-deferred", true, 'a', 'j', 1, nm("svc_05"), "P:1")
+	fm("fixed-deferred", true, 'd', 'j', 2, nm("Bob_06"), "P:1")
+	// the red-team scenario: a second login start / an encryption response / garbage while a message is outstanding
+	fm("fixed-deferred-order", true, 'a', 'j', 1, nm("svc_07"), nm("Notch_07"), "P:1", "P:2")
+	fm("fixed-deferred-order", true, 'a', 'j', 1, nm("Bob_08"), nm("Bob_08"), "P:1", "P:2", "E:v:k")
+	fm("fixed-deferred-order", true, 'a', 'j', 2, nm("svc_09"), "P:1", nm("Notch_09"), "P:2", "P:3", "P:4")
+	fm("fixed-deferred-order", true, 'a', 'j', 1, nm("Bob_10"), "E:v:k", "P:1")
+	fm("fixed-deferred-order", true, 'a', 'j', 1, nm("Bob_11"), "U", "P:1")
+	fm("fixed-deferred-order", true, 'a', 'j', 1, nm("Bob_12"), "A", "P:1")
+	fm("fixed-deferred-order", false, 'a', 'j', 1, nm("Bob_13"), nm("Eve_13"), "P:1")
+
 	g := &gen{r: run.Rng}
 	n := run.Scale(1500, 15000)
 	for i := 0; i < n; i++ {
 		cs := caseSpec{protocol: hx.Pick(g.r, protocols), online: g.r.Chance(3, 4)}
 		cs.pre = hx.Pick(g.r, []byte("aaaaadnf"))
 		cs.sess = hx.Pick(g.r, []byte("jjjjjjonuembx"))
+		cs.msgs = hx.Pick(g.r, []int{0, 0, 1, 1, 2})
 		cs.inputs = g.sequence()
 		class := "online"
 		if !cs.online {
 			class = "offline"
 		}
-		emit(fmt.Sprintf("%s-pre%c-sess%c", class, cs.pre, cs.sess), cs)
+		emit(fmt.Sprintf("%s-pre%c-sess%c-msgs%d", class, cs.pre, cs.sess, cs.msgs), cs)
 	}
 }
